@@ -16,6 +16,7 @@ import collections
 import hashlib
 import inspect
 import json
+import random
 import warnings
 import zlib
 
@@ -254,6 +255,32 @@ def ode_graph_kwargs(nm, rng, labels, case):
     return kw
 
 
+def ode_explicit_kwargs(nm, L, c, rng, kw):
+    """Optional call styles of the graph-taking ODE entry points (case["ode_explicit"]): weight labels,
+    an explicit nodelist in an order of its own, per-node Y0 / X0 arrays listed in that order."""
+    ex = c.get("ode_explicit") or {}
+    params = inspect.signature(getattr(AN, nm)).parameters
+    if ex.get("weights"):
+        # heterogeneous per-edge / per-node rates: they must travel with the nodes
+        if "transmission_weight" in params:
+            kw["transmission_weight"] = "w"
+        if "recovery_weight" in params:
+            kw["recovery_weight"] = "nw"
+    if ex.get("nodelist") and "nodelist" in params:
+        order = list(range(len(L)))
+        rng.shuffle(order)
+        kw["nodelist"] = [L[i] for i in order]
+        if ex.get("y0") and "Y0" in params:
+            kw.pop("rho", None)
+            I0s, R0s = set(c["I0"]), set(c["R0"])
+            y = np.array([0.9 if i in I0s else 0.05 for i in order])
+            kw["Y0"] = y
+            if "X0" in params:
+                kw["X0"] = np.array([1.0 - y[k] - (0.6 if i in R0s else 0.0) if i not in I0s else 0.1
+                                     for k, i in enumerate(order)])
+    return kw
+
+
 def call_ode_graph(nm, G, case, kw):
     fn = getattr(AN, nm)
     params = inspect.signature(fn).parameters
@@ -266,8 +293,9 @@ def one_ode_graph(case):
     G, labels = cases.build_graph(case["graph"])
     nm = case["entry"]
     kw = ode_graph_kwargs(nm, None, labels, case)
+    ode_explicit_kwargs(nm, labels, case, random.Random(case.get("ex_seed", 0)), kw)
     pool = {"G": G}
-    for k in ("initial_infecteds", "initial_recovereds"):
+    for k in ("initial_infecteds", "initial_recovereds", "nodelist", "Y0", "X0"):
         if k in kw:
             pool[k] = kw[k]
     names = sorted(pool)
@@ -432,6 +460,8 @@ def run_one(family, rng, idx, tier):
     elif family == "ode_graph":
         case = gen_ode_case(rng, GRAPH_ENTRY)
         case["kind"] = "ode_graph"
+        case["ode_explicit"] = {"weights": rng.random() < 0.5, "nodelist": rng.random() < 0.5, "y0": rng.random() < 0.6}
+        case["ex_seed"] = rng.getrandbits(30)
         v, note = one_ode_graph(case)
         stats = {"evaluations": 2, "entry_points_available": len(GRAPH_ENTRY)}
         if note:
